@@ -25,6 +25,7 @@ def run(rep, prog, tier):
     rep.rule('C07.4', 'key-material class table: public/private pairing per algorithm', floor=9)
     rep.rule('C07.5', 'private operations require is_public=False; check precedes the action', floor=8)
     rep.rule('C07.6', 'export emits only key, signature, user id and subkey packets; label by class', floor=3)
+    rep.rule('C07.7', 'what is attached to the public twin are faithful copies: complete, same class, not re-encoded', floor=12)
     rep.assume('copy.copy of a PGPUID / PGPSignature copies public data only (they hold no key material)')
 
     families.check_pubkey_derivation(rep, prog, 'C07.1')
@@ -35,6 +36,7 @@ def run(rep, prog, tier):
     keyaction.check_private_ops(rep, prog, 'C07.5')
     keyaction.check_call_order(rep, prog, 'C07.5')
     check_export(rep, prog)
+    check_copy_fidelity(rep, prog)
 
 
 def _fresh_key_objects(s):
@@ -467,3 +469,95 @@ def _public_predicate(rep, prog, fn, construct, obj, pubname, privname, rid):
             rep.check(vals == {want}, rid, construct, '%s=%s %s=%s -> %s' % (pubname, a, privname, b, sorted(vals)),
                       'an object is public iff it is a public-key object and not a secret-key object', where=fn.where, expected=want,
                       found=sorted(vals), scenario='%s=%s, %s=%s' % (pubname, a, privname, b))
+
+
+# ------------------------------------------------------------------------------------------------ C07.7
+class _Renamed(object):
+    """A reporter that files everything a shared rule family reports under this property's rule id."""
+    def __init__(self, rep, mapping):
+        self._rep, self._map = rep, mapping
+
+    def _rid(self, rid):
+        return self._map.get(rid, rid)
+
+    def check(self, cond, rid, *a, **kw):
+        return self._rep.check(cond, self._rid(rid), *a, **kw)
+
+    def ok(self, rid, *a, **kw):
+        return self._rep.ok(self._rid(rid), *a, **kw)
+
+    def violation(self, rid, *a, **kw):
+        return self._rep.violation(self._rid(rid), *a, **kw)
+
+    def error(self, rid, *a, **kw):
+        return self._rep.error(self._rid(rid), *a, **kw)
+
+    def __getattr__(self, name):
+        return getattr(self._rep, name)
+
+
+PACKETS_COPIED = ('PubKeyV4', 'PrivKeyV4', 'PubSubKeyV4', 'PrivSubKeyV4', 'UserID', 'UserAttribute', 'SignatureV4')
+
+
+def field_classes(prog, ci):
+    """attribute -> class of the object a fresh instance of ci holds there (read from the constructors, base classes included)"""
+    ini = ci.find_method('__init__')
+    if ini is None:
+        return {}
+    out = {}
+    sc = Scenario(inline=lambda f: f.name == '__init__', self_cls=ci, max_depth=5)
+    for s in Interp(prog, sc).run(ini):
+        for pth, t, l, v in s.stores:
+            m = re.match(r'^%s\.(\w+)$' % re.escape(ini.params[0]), pth)
+            if m and isinstance(v, Obj) and v.cls is not None:
+                out[m.group(1)] = v.cls
+    return out
+
+
+def check_copy_fidelity(rep, prog):
+    """The public twin is assembled from copy.copy(uid) / copy.copy(sig) / packet copies.  (1) those copies are complete and keep
+    the received octets (the shared copy rules of C14.4, filed here under C07.7: a copy that re-encodes or drops a field changes
+    what the public export says); (2) every copy is made through the class of the thing copied: a __copy__ constructs the
+    receiver's own class, and a field copied with copy.copy() whose class has a __copy__ gets an object of that same class."""
+    from rules import C14
+    C14.copies(_Renamed(rep, {'C14.4': 'C07.7'}), prog)
+    pk = prog.module('pgpy.packet.packets')
+    seen = set()
+
+    def own_class(ci, via, depth=0):
+        """does copying an instance of ci give an instance of ci?  (recursively for the fields it copies with copy.copy)"""
+        if (ci.key, via) in seen or depth > 3:
+            return
+        seen.add((ci.key, via))
+        cpm = ci.find_method('__copy__')
+        if cpm is None:
+            rep.ok('C07.7', '%s.__copy__' % ci.name, 'generic copy (same class, fields shared)')
+            return
+        me = cpm.params[0]
+        fields = None
+        for s in Interp(prog, Scenario(inline=noinline, self_cls=ci)).run(cpm):
+            if s.raised is not None or s.ret is None:
+                continue
+            r = render(s.ret)
+            made = s.ret.cls if isinstance(s.ret, Obj) else None
+            fresh = [e[2] for e in s.events if e[0] == 'assign' and e[1] == r]
+            same = made is ci or (made is None and any(t in ('%s.__class__()' % me, 'type(%s)()' % me) for t in fresh + [r]))
+            if made is None and not same and not fresh:
+                raise AnalysisError('%s.__copy__: cannot tell what it returns (%s)' % (ci.name, r))
+            rep.check(same, 'C07.7', '%s.__copy__' % ci.name, '%s copied as %s%s' % (ci.name, made.name if made is not None else (fresh or [r])[0], via),
+                      'a copy must be an object of the class of the thing copied (a container copied through another class is serialised '
+                      'with the other class\'s framing)', where=cpm.where, expected='%s (self.__class__())' % ci.name,
+                      found=made.name if made is not None else (fresh or [r])[0])
+            for pth, t, l, v in s.stores:
+                m = re.match(r'^copy\.(?:copy|deepcopy)\(%s\.(\w+)\)$' % re.escape(me), t)
+                if m and pth.startswith(r + '.'):
+                    if fields is None:
+                        fields = field_classes(prog, ci)
+                    fc = fields.get(m.group(1)) or fields.get(m.group(1).lstrip('_')) or fields.get('_' + m.group(1))
+                    if fc is not None and fc.find_method('__copy__') is not None:
+                        own_class(fc, ' (field %s of %s)' % (m.group(1), ci.name), depth + 1)
+    for name in PACKETS_COPIED:
+        c = pk.classes.get(name)
+        if c is None:
+            raise AnalysisError('packet class %s vanished' % name)
+        own_class(c, '')
